@@ -73,6 +73,8 @@ pub trait Drv {
     fn stats(&self) -> (Vec<usize>, Vec<usize>);
     fn epoch(&self, scene: u64) -> usize;
     fn content(&self, wasted: bool) -> Vec<TrackView>;
+    /// identity of the main store in hook events
+    fn main_uid(&self) -> u64;
 }
 
 #[derive(Clone, Debug)]
@@ -293,6 +295,9 @@ macro_rules! common_api {
         }
         fn epoch(&self, scene: u64) -> usize {
             self.t.current_epoch_with_scene(scene)
+        }
+        fn main_uid(&self) -> u64 {
+            self.t.get_main_store().verif_uid()
         }
     };
 }
